@@ -43,7 +43,13 @@ def gen_case(rng):
     net = netkit.gen_network(rng, policies=("MunkresDecision", "MyopicNaiveGreedyDecision", "AllVisibleDecision"), max_sensors=3, max_targets=4)
     phys, out = rng.choice(STEP_PAIRS)
     net["step"] = phys
-    net["init_pos_std"] = 1e-3
+    net["init_pos_std"] = rng.choice([1e-3, 1e-3, 5.0])  # km; with a 0.5 deg field of view 5 km produces FIELD_OF_VIEW misses
+    if rng.random() < 0.5:
+        # narrow fields of view + a few km of initial estimate error: FIELD_OF_VIEW misses (tasking only happens for pairs
+        # predicted visible, so slow mounts would not produce misses)
+        for sdesc in net["sensors"]:
+            sdesc["fov"] = "narrow"
+        net["init_pos_std"] = rng.choice([2.0, 5.0, 10.0])
     nchunks = rng.randrange(1, 5)
     plan = [rng.randrange(1, 7) for _ in range(nchunks)]
     total = sum(plan)
@@ -130,6 +136,18 @@ def execute(case, fault=None):
         cap["committed"] = True
 
     app.saveDatabaseOutput = save
+    produced = {"obs": [], "miss": []}
+    orig_step = app.stepForward
+
+    def stepped():
+        orig_step()
+        if case["estimation"]:
+            k = int(round(float(app.clock.time) / net["step"]))
+            for eng in app.tasking_engines.values():
+                produced["obs"].extend((k, float(o.julian_date), int(o.sensor_id), int(o.target_id)) for o in eng.observations)
+                produced["miss"].extend((k, float(m.julian_date), int(m.sensor_id), int(m.target_id)) for m in eng.missed_observations)
+
+    app.stepForward = stepped
     # the initial save happened in the constructor: reconstruct its capture
     start = datetime.fromisoformat(net["start"])
 
@@ -160,7 +178,7 @@ def execute(case, fault=None):
             sa_event.remove(app.database.engine, "before_cursor_execute", before_exec)
         except Exception:  # noqa: BLE001
             pass
-    hist = {"steps_done": steps_done, "fired": state["fired"], "stmts_in_bulk": state["stmts_in_bulk"],
+    hist = {"steps_done": steps_done, "fired": state["fired"], "stmts_in_bulk": state["stmts_in_bulk"], "produced": produced,
             "alive_targets_final": sorted(int(i) for i in app.target_agents), "sensors": sorted(int(i) for i in app.sensor_agents)}
     return b, caps, hist, err
 
@@ -261,6 +279,17 @@ def audit(ctx, case, b, caps, hist, wit, fault=None):
         dup = cur.execute(f"select {cols}, count(*) c from {table} group by {cols} having c > 1").fetchall()  # noqa: S608
         multi = net["policy"] == "AllVisibleDecision" and table in ("observations",)
         ctx.check(not dup, f"duplicate-rows-{table}" + ("-multi-job-sensor" if multi else ""), f"{len(dup)} duplicated key(s) in {table}, e.g. {dup[:2]} ({net['policy']})", wit, mon="cardinality")
+    # ---- every observation / miss the engines produced up to the last output epoch is stored exactly once ------
+    if fault is None and committed and case["estimation"]:
+        last_k = int(round(committed[-1]["time"] / net["step"]))
+        for kind, table in (("obs", "observations"), ("miss", "missed_observations")):
+            want = sorted((jd, sid, tid) for (k, jd, sid, tid) in hist["produced"][kind] if k <= last_k)
+            got = sorted(cur.execute(f"select julian_date, sensor_id, target_id from {table}").fetchall())  # noqa: S608
+            ctx.count(f"produced_{table}", len(want))
+            ctx.check(want == got, f"{table}-rows-ne-produced",
+                      f"{table}: the engines produced {len(want)} record(s) up to the last output epoch (step {last_k}), the database holds {len(got)}; "
+                      f"missing {len([w_ for w_ in want if w_ not in got])}, unexpected {len([g_ for g_ in got if g_ not in want])} (physics {net['step']}s, output {case['out']}s)",
+                      wit, mon="cardinality")
     # ---- atomicity -----------------------------------------------------------------------------
     if fault is not None and hist["fired"]:
         for c in failed:
